@@ -847,6 +847,7 @@ pub fn spec_name(s: SpecId) -> &'static str {
         SpecId::CANCUN => "CANCUN",
         SpecId::PRAGUE => "PRAGUE",
         SpecId::OSAKA => "OSAKA",
+        SpecId::AMSTERDAM => "AMSTERDAM",
         _ => "OTHER",
     }
 }
